@@ -22,6 +22,9 @@ open Ssl Ssl.Ty Ssl.Check Ssl.CheckF
 /-- the weird helper of bin_op.rs used for the result of `op=`: the left type if `[]` matches it, else the right type -/
 def helperRet (c r : Ty) : Ty := if sub (.arr .never) c then c else r
 
+/-- declarations in order: a later one shadows an earlier one -/
+def bindAll (bs : List (String × Ty)) (g : TEnv) : TEnv := bs.foldl (fun g b => b :: g) g
+
 mutual
 def tyS : Bool → Option Ty → TEnv → Expr → Res Ty
   | lp, _, _, .litBool _ => .ok .bool
@@ -46,7 +49,12 @@ def tyS : Bool → Option Ty → TEnv → Expr → Res Ty
       match ta with
       | .arr e => okW e
       | .str => .ok .str
-      | .multi _ => .unsup
+      | .multi _ =>
+        -- a union of indexable types: `can_be_indexed`, then `index_result` (the join of the members' element types)
+        if !canBeIndexed ta then .ill else
+        (match indexResult ta with
+         | some T => okW T
+         | none => .unsup)
       | .never => .unsup
       | _ => .ill
   | lp, r, g, .tacc e n => (tyS lp r g e).bind fun t =>
@@ -54,7 +62,16 @@ def tyS : Bool → Option Ty → TEnv → Expr → Res Ty
       | .tup ts => match ts[n]? with
         | some x => okW x
         | none => .ill
-      | .multi _ => .unsup
+      | .multi _ =>
+        -- a union of tuple types: `is_tuple`, the index below the shortest member, `tuple_element_at` (join)
+        if !isTuple t then .ill else
+        (match minTupleLen t with
+         | some len =>
+           if n < len then (match tupleElementAt n t with
+             | some T => okW T
+             | none => .unsup)
+           else .ill
+         | none => .unsup)
       | .never => .unsup
       | _ => .ill
   | lp, r, g, .ifElse c t e => (tyS lp r g c).bind fun tc =>
@@ -93,7 +110,16 @@ def tyS : Bool → Option Ty → TEnv → Expr → Res Ty
   | lp, r, g, .call f args => (tyS lp r g f).bind fun tf => (tySList lp r g args).bind fun tas =>
       match tf with
       | .fn pts rt => if argsOk tas pts then okW rt else .ill
-      | .multi _ => .unsup
+      | .multi _ =>
+        -- a union of function types: `is_function`, the arguments against `params()` (the member-wise MEET of the
+        -- parameter types), the result `return_type()` (the join of the members' results)
+        if !isFunction tf then .ill else
+        (match params tf with
+         | none => .ill
+         | some pts =>
+           match returnType tf with
+           | some rt => if argsOk tas pts then okW rt else .ill
+           | none => .unsup)
       | .never => .unsup
       | .any => .ill
       | _ => .ill
@@ -111,7 +137,12 @@ def tyS : Bool → Option Ty → TEnv → Expr → Res Ty
   | lp, r, g, .pre .deref e => (tyS lp r g e).bind fun t =>
       match t with
       | .cell c => okW c
-      | .multi _ => .unsup
+      | .multi _ =>
+        -- a union of cell types: `is_mut`, then `mut_element_type` (the join of the members' contents)
+        if !isMut t then .ill else
+        (match mutElementType t with
+         | some T => okW T
+         | none => .unsup)
       | .never => .unsup
       | _ => .ill
   | lp, r, g, .assign op target value => (tyS lp r g target).bind fun tt => (tyS lp r g value).bind fun tv =>
@@ -121,7 +152,14 @@ def tyS : Bool → Option Ty → TEnv → Expr → Res Ty
          | none => if sub tv c then okW tv else .ill                    -- `c = v` has the type of `v`
          | some BinOp.add => (binTy .add c tv).bind fun rt => if sub rt c then okW c else .ill
          | some bop => (binTy bop c tv).bind fun _ => if sub (helperRet c tv) c then okW c else .ill)
-      | .multi _ => .unsup
+      | .multi _ =>
+        -- `c = v` through a union of cell types: the value must match `mut_assign_type` (the MEET of the members' contents)
+        (match Spec.assignBase op with
+         | none =>
+           (match mutElementType tt, mutAssignType tt with
+            | some _, some A => if sub tv A then okW tv else .ill
+            | _, _ => .ill)
+         | some _ => .unsup)
       | .never => .unsup
       | _ => .ill
   -- loops: the body is checked "inside a loop"; `break` / `continue` only there; a loop has type `()`
@@ -131,6 +169,17 @@ def tyS : Bool → Option Ty → TEnv → Expr → Res Ty
   | lp, r, g, .whileSet x ty e body =>
       if !wf ty then .unsup else
       (tyS lp r g e).bind fun _ => (tyS true r ((x, ty) :: g) body).bind fun _ => .ok .void
+  -- `for x in it body`: `it` must be an iterator `() -> (bool, T)`; the body sees `x : T` (and the two names the desugaring
+  -- binds at run time, which no program text can mention) and is "inside a loop"
+  | lp, r, g, .forE x it body => (tyS lp r g it).bind fun ti =>
+      match ti with
+      | .fn [] (.tup [b, t]) =>
+        if !eqv b .bool then .ill else
+        (tyS true r ((x, t) :: ("$con", .bool) :: ("$iter", ti) :: g) body).bind fun _ => .ok .void
+      | .fn [] (.multi _) => .unsup
+      | .multi _ => .unsup
+      | .never => .unsup
+      | _ => .ill
   | lp, _, _, .brk => if lp then .ok .never else .ill
   | lp, _, _, .cont => if lp then .ok .never else .ill
   | lp, _, _, _ => .unsup
@@ -155,7 +204,13 @@ def tySSeq : Bool → Option Ty → TEnv → List Expr → Res (List Ty × TEnv)
   | lp, r, g, s :: rest => (tySStmt lp r g s).bind fun (t, g') => (tySSeq lp r g' rest).bind fun (ts, g'') => .ok (t :: ts, g'')
 def tySStmt : Bool → Option Ty → TEnv → Expr → Res (Ty × TEnv)
   | lp, r, g, .set x e => (tyS lp r g e).bind fun t => .ok (t, (x, t) :: g)
-  | lp, _, _, .destruct .. => .unsup
+  -- `(a, b) := e`: `e` must have a tuple type of that length; later names shadow earlier ones
+  | lp, r, g, .destruct xs e => (tyS lp r g e).bind fun te =>
+      match te with
+      | .tup ts => if ts.length == xs.length then .ok (te, bindAll (List.zip xs ts) g) else .ill
+      | .multi _ => .unsup
+      | .never => .unsup
+      | _ => .ill
   | lp, _, g, .fndecl x ps rt body =>
       if !(wfParams ps && wf rt) then .unsup else
       let ft : Ty := .fn (ps.map (·.2)) rt
